@@ -1,0 +1,27 @@
+//go:build verif
+
+package ro
+
+import "sync/atomic"
+
+// VerifHandler is called at every named verification point when the library
+// is built with the `verif` tag and a handler is installed.
+type VerifHandler func(point string)
+
+var verifHandler atomic.Value // of VerifHandler
+
+// VerifSetHandler installs (or, with nil, removes) the handler called at the
+// named verification points. Only available with the `verif` build tag.
+func VerifSetHandler(h VerifHandler) {
+	if h == nil {
+		h = func(string) {}
+	}
+
+	verifHandler.Store(h)
+}
+
+func verifPoint(name string) {
+	if h, ok := verifHandler.Load().(VerifHandler); ok && h != nil {
+		h(name)
+	}
+}
